@@ -469,6 +469,70 @@ func ruleR20d(c *Check) {
 // loaded nodes, the loop ranges over the whole node map and over each node's GetDependencies() through the
 // BuildNode interface — aliases contribute their alias -> actual edge like targets contribute theirs; a builder
 // that ranges over the targets only yields a graph in which nothing is reachable through an alias.
+// declaredDependencyList: the value is the result of BuildNode.GetDependencies() called through the interface,
+// or of a first-party helper that returns that list or a list it fills while ranging over it (returned with
+// the helper, so that a caller can ask what the helper's loop does).
+func declaredDependencyList(c *Check, v ssa.Value) (*ssa.Function, bool) {
+	isDirect := func(x ssa.Value) bool {
+		for _, o := range engine.Origins(x) {
+			if call, _ := engine.CallOf(o); call != nil && call.Common().IsInvoke() && call.Common().Method.Name() == "GetDependencies" {
+				return true
+			}
+		}
+		return false
+	}
+	if isDirect(v) {
+		return nil, true
+	}
+	for _, o := range engine.Origins(v) {
+		call, _ := engine.CallOf(o)
+		if call == nil {
+			continue
+		}
+		h := call.Common().StaticCallee()
+		if h == nil || len(h.Blocks) == 0 || !engine.IsFirstParty(pkgPathOf(h)) {
+			continue
+		}
+		all, any := true, false
+		for _, r := range engine.Returns(h) {
+			if len(r.Results) == 0 {
+				continue
+			}
+			if isDirect(r.Results[0]) {
+				any = true
+				continue
+			}
+			// a local list appended to in loops over the declared list
+			filled := false
+			for _, b := range h.Blocks {
+				for _, in := range b.Instrs {
+					ap, ok := in.(*ssa.Call)
+					if !ok {
+						continue
+					}
+					if bi, isB := ap.Call.Value.(*ssa.Builtin); !isB || bi.Name() != "append" || !sameSlice(ap, r.Results[0]) {
+						continue
+					}
+					if lp := engine.LoopOf(ap); lp != nil && lp.RangedValue() != nil && isDirect(lp.RangedValue()) {
+						filled = true
+					} else {
+						all = false
+					}
+				}
+			}
+			if filled {
+				any = true
+			} else {
+				all = false
+			}
+		}
+		if any && all {
+			return h, true
+		}
+	}
+	return nil, false
+}
+
 func ruleEdgesFromAllNodes(c *Check, rule string) {
 	c.Rule(rule, "every call of the graph's edge-adding function outside internal/dag sits in a loop over a model.BuildNodeMap (all node kinds) and a loop over the result of BuildNode.GetDependencies() called through the interface", 1)
 	addEdge := anchor(c, rule, "dag", "DirectedTargetGraph", "AddEdge")
@@ -520,10 +584,8 @@ func ruleEdgesFromAllNodes(c *Check, rule string) {
 			if engine.TypeKey(rv.Type()) == "model.BuildNodeMap" {
 				allNodes = true
 			}
-			for _, o := range engine.Origins(rv) {
-				if call, _ := engine.CallOf(o); call != nil && call.Common().IsInvoke() && call.Common().Method.Name() == "GetDependencies" {
-					viaIface = true
-				}
+			if _, ok := declaredDependencyList(c, rv); ok {
+				viaIface = true
 			}
 		}
 		what := ""
